@@ -1141,6 +1141,7 @@ func (e *diskEndpoint) Poll(ctx context.Context) error {
 }
 
 func (e *diskEndpoint) Scan(ctx context.Context, ancestor *core.Entry, full bool) (*core.Snapshot, error, bool) {
+	e.h.checkResetAncestor(e.side, ancestor)
 	h, d := e.h, e.h.disk
 	started := h.enter(e.side, "scan")
 	defer h.leave(e.side)
